@@ -21,7 +21,68 @@ func runC07(c *mon.Ctx) {
 		c.Cases(func(i int, r *mon.Rand) { lifecycleCase(c, r, "C07") })
 		return
 	}
-	c.Cases(func(i int, r *mon.Rand) { c07Run(c, r) })
+	c.Cases(func(i int, r *mon.Rand) {
+		c07Run(c, r)
+		c07Burst(c, r.Fork(707))
+	})
+}
+
+// c07Burst: 130-600 subscopes (more than any per-pass quota a registry might
+// have), each recorded on once, all closed before the next pass - in one shard
+// or spread over several. The next pass, or the root's Close, delivers every
+// one of them exactly once.
+func c07Burst(c *mon.Ctx, r *mon.Rand) {
+	cached := r.Bool()
+	var rec *mon.Recorder
+	opts := tally.ScopeOptions{OmitCardinalityMetrics: true}
+	if cached {
+		cr := mon.NewCachedRec(false)
+		rec, opts.CachedReporter = cr.Recorder, cr
+	} else {
+		pr := mon.NewPlainRec(false)
+		rec, opts.Reporter = pr.Recorder, pr
+	}
+	shards := uint(r.Range(1, 3))
+	root, closer := vNewRoot(opts, 0, shards)
+	n := r.Range(130, 600)
+	tagged := r.Bool()
+	byClose := r.Bool()
+	for k := 0; k < n; k++ {
+		var sc tally.Scope
+		if tagged {
+			sc = root.Tagged(map[string]string{"burst": fmt.Sprint(k)})
+		} else {
+			sc = root.SubScope(fmt.Sprintf("burst%d", k))
+		}
+		sc.Counter("c").Inc(int64(k + 1))
+		if k%3 == 0 {
+			sc.Histogram("h", tally.ValueBuckets{}).RecordValue(1)
+		}
+		sc.(io.Closer).Close()
+	}
+	if byClose {
+		closer.Close()
+	} else {
+		tally.VerifReportPass(root)
+	}
+	_, agg, _ := rec.Snapshot()
+	desc := map[string]interface{}{"cached": cached, "shards": shards, "subscopes_closed_before_the_pass": n, "tagged": tagged, "delivered_by_root_close": byClose}
+	lost := 0
+	for k := 0; k < n; k++ {
+		key := mon.IdentKey(fmt.Sprintf("burst%d.c", k), nil)
+		if tagged {
+			key = mon.IdentKey("c", map[string]string{"burst": fmt.Sprint(k)})
+		}
+		if a := agg[key]; a.Sum != int64(k+1) || a.N != 1 {
+			if lost++; lost == 1 {
+				c.Violation("lost-or-duplicated-before-close", map[string]interface{}{"why": fmt.Sprintf("subscope %d of %d closed before one pass: its counter was delivered %d times adding up to %d, recorded %d before its Close", k, n, a.N, a.Sum, k+1), "case": desc})
+			}
+		}
+	}
+	c.Event("burst-subscopes-closed-before-one-pass", int64(n))
+	if !byClose {
+		closer.Close()
+	}
 }
 
 type c07Ident struct {
